@@ -179,7 +179,7 @@ def run(tier: str) -> int:
         r = by[mm[0]]
         c = r['ctx']
         key = {'fam': c['fam'], 'clause': mm[1], 'nbits': c.get('nbits'), 'nk': c.get('nk'), 'inf': c.get('inf')}
-        rep.mismatch(key, {'ctx': c, 'clause': mm[1], 'op': r['op']})
+        rep.mismatch(key, r)
     return rep.finish()
 
 
